@@ -96,9 +96,11 @@ def replay(case):
     """re-execute one stored spec without hypothesis; first mismatch message or None"""
     spec = dict(case)
     spec.pop('focus', None)
-    root = os.path.join(HOME, '.work')
-    os.makedirs(root, exist_ok=True)
-    workdir = tempfile.mkdtemp(prefix='c27replay_', dir=root)
+    workdir = None
+    if spec.get('reopen'):                 # only the two-Database variant needs a file
+        root = os.path.join(HOME, '.work')
+        os.makedirs(root, exist_ok=True)
+        workdir = tempfile.mkdtemp(prefix='c27replay_', dir=root)
 
     def report(focus, message):
         raise M.Stop(message)
@@ -109,9 +111,8 @@ def replay(case):
     except M.Rejected:
         return None
     finally:
-        shutil.rmtree(workdir, ignore_errors=True)
-        try: os.rmdir(root)
-        except OSError: pass
+        if workdir:
+            shutil.rmtree(workdir, ignore_errors=True)
     return None
 
 
